@@ -196,8 +196,6 @@ class Dumper {
         S = E->getSubExpr();
       else if (auto* E = dyn_cast<ParenExpr>(S))
         S = E->getSubExpr();
-      else if (auto* E = dyn_cast<SubstNonTypeTemplateParmExpr>(S))
-        S = E->getReplacement();
       else if (auto* E = dyn_cast<CXXDefaultArgExpr>(S))
         S = E->getExpr();
       else if (auto* E = dyn_cast<CXXDefaultInitExpr>(S))
@@ -470,6 +468,12 @@ class Dumper {
           J.attribute("ct", canonStr(W.getNonReferenceType().getUnqualifiedType()));
         }
         children(S);
+        return;
+      }
+      if (auto* SP = dyn_cast<SubstNonTypeTemplateParmExpr>(S)) {
+        // keep the template parameter's name: value-level rules treat it as a symbol, not as this instantiation's value
+        J.attribute("n", SP->getParameter()->getNameAsString());
+        J.attributeArray("c", [&] { dumpStmt(SP->getReplacement()); });
         return;
       }
       if (auto* IL = dyn_cast<IntegerLiteral>(S)) {
